@@ -152,6 +152,41 @@ def main(inp, outp):
                 clause("an impulse is applied no later than one integration step after its date (final position inside the window)", inside,
                        "numman/position-window", f"{method} {tl['mans']}: final position {fin[:3].tolist()} outside [{lo.tolist()}, {hi.tolist()}]", data)
             res["nontrivial"].append(json.dumps([method, [m["kind"] for m in tl["mans"]], [m["t"] % H == 0 for m in tl["mans"]]]))
+    # ---- with gravity (adaptive and fixed-step methods): the run with the maneuver must agree with the manual split
+    #      "propagate to the maneuver date, add the delta-v by hand, propagate on" of the same integrator ------------------
+    from beyond.env.solarsystem import get_body
+    for case in job.get("gravman", []):
+        method, tman, hstep = case["method"], case["t"], case["H"]
+        kep = [7.0e6, 0.02, 0.9, 1.0, 2.0, 0.5]
+
+        def mk():
+            return Orbit(kep, DATE, "keplerian", "EME2000", KeplerNum(timedelta(seconds=hstep), get_body("Earth"), method=method)).copy(form="cartesian")
+        dv = np.array(case["dv"], float)
+        tend = DATE + timedelta(seconds=tman + 6 * hstep + 17)
+        data = {"method": method, "maneuver_at_s": tman, "step_s": hstep, "dv": case["dv"], "frame": case["frame"]}
+        try:
+            o1 = mk()
+            o1.maneuvers = [ImpulsiveMan(DATE + timedelta(seconds=tman), dv, frame=case["frame"])]
+            with_man = np.asarray(o1.propagate(tend), float)
+            o2 = mk()
+            at = o2.propagate(DATE + timedelta(seconds=tman))
+            kick = ImpulsiveMan(at.date, dv, frame=case["frame"]).dv(at)
+            st = np.asarray(at, float).copy()
+            st[3:] += kick
+            o3 = Orbit(st, at.date, "cartesian", "EME2000", KeplerNum(timedelta(seconds=hstep), get_body("Earth"), method=method))
+            manual = np.asarray(o3.propagate(tend), float)
+        except Exception as e:
+            clause("numerical propagation through maneuvers completes", False, "numman/raises", f"{type(e).__name__}: {e}", data)
+            continue
+        res["evaluations"] += 1
+        res["traces"] += 1
+        nd = np.linalg.norm(dv)
+        dvel = np.linalg.norm(with_man[3:] - manual[3:])
+        dpos = np.linalg.norm(with_man[:3] - manual[:3])
+        clause("with gravity: an impulse is applied exactly once, no later than one step after its date (agrees with the manual split)",
+               dvel <= 0.25 * nd and dpos <= nd * (hstep + 0.25 * (6 * hstep + 17)), "numman/gravity-once",
+               f"{method} step {hstep}s impulse at {tman}s: differs from the manual split by {dpos:.3f} m, {dvel:.4f} m/s for |dv| = {nd}", data)
+        res["nontrivial"].append(json.dumps(["grav", method, tman % hstep == 0]))
     # off-grid burns: full delta-v within one step's worth
     for (start, dur, H) in job.get("offgrid", []):
         for method in ("rk4", "euler"):
